@@ -730,4 +730,76 @@ theorem run_reachable {s0 s s' : St} (hr : Reachable s0 s) (es : List Ev) (h : r
       exact ih (Reachable.step e hr hs1) h
     · cases h
 
+/-! ### every run is finite -/
+
+/-- steps a caller can still take, at most -/
+def mu : PC → Nat
+  | .idle => 7
+  | .wantR => 6
+  | .holdR _ => 5
+  | .inCall _ => 4
+  | .retd _ => 3
+  | .done _ => 0
+  | .panicked _ => 0
+  | .wantW => 6
+  | .holdW => 5
+  | .closedOld => 4
+  | .refusing => 4
+  | .installed => 3
+  | .swapped => 0
+  | .refused => 0
+
+def total (s : St) : Nat := (s.callers.map mu).sum
+
+theorem sum_set_lt {f : PC → Nat} {pc pc' : PC} (hlt : f pc' < f pc) :
+    ∀ (l : List PC) (t : Nat), l[t]? = some pc → ((l.set t pc').map f).sum < (l.map f).sum := by
+  intro l
+  induction l with
+  | nil => intro t h; cases h
+  | cons x xs ih =>
+    intro t h
+    cases t with
+    | zero =>
+      simp only [List.getElem?_cons_zero] at h
+      injection h with h; subst h
+      simp only [List.set_cons_zero, List.map_cons, List.sum_cons]
+      omega
+    | succ t =>
+      simp only [List.getElem?_cons_succ] at h
+      have := ih t h
+      simp only [List.set_cons_succ, List.map_cons, List.sum_cons]
+      omega
+
+/-- every step uses up budget -/
+theorem step_decreases {s s' : St} (e : Ev) (hs : step s e = some s') : total s' < total s := by
+  obtain ⟨pc0, pc', b, hpc, htr, hs'⟩ := step_spec hs
+  subst hs'
+  show ((s.callers.set e.caller pc').map mu).sum < (s.callers.map mu).sum
+  apply sum_set_lt _ _ _ hpc
+  cases htr <;> simp only [mu] <;> omega
+
+/-- **every schedule is finite**: a run of the machine takes at most 7 steps per caller -/
+theorem run_bounded (s s' : St) (es : List Ev) (hrun : run s es = some s') :
+    es.length + total s' ≤ total s := by
+  induction es generalizing s with
+  | nil => simp only [run] at hrun; injection hrun with hrun; subst hrun; simp
+  | cons e es ih =>
+    simp only [run] at hrun
+    split at hrun
+    · rename_i s1 hs1
+      have h1 := step_decreases e hs1
+      have h2 := ih s1 hrun
+      simp only [List.length_cons]
+      omega
+    · cases hrun
+
+theorem sum_replicate_nat (k c : Nat) : (List.replicate k c).sum = k * c := by
+  induction k with
+  | zero => simp
+  | succ k ih => rw [List.replicate_succ, List.sum_cons, ih, Nat.succ_mul]; omega
+
+theorem total_init (curW wp : Bool) (roles : List Role) : total (St.init curW wp roles) = roles.length * 7 := by
+  simp only [total, St.init, List.map_replicate, mu]
+  exact sum_replicate_nat _ _
+
 end Desync.Swap
